@@ -809,6 +809,8 @@ class Server():
 
             if responder.ended:
                 requestant = self.reqs[ca]
+                if not requestant.ended:  # parsing next request so responder is stale
+                    continue
                 if requestant.persisted:
                     if requestant.parser is None:  # reuse
                         requestant.makeParser()  # resets requestant parser
